@@ -41,6 +41,26 @@ CLAIMS["C15"] = dict(
     technique="Coq proof on a hand-written model whose integer expressions are generated from source + vm_compute correspondence + direct oracle",
 )
 
+# checks built by sub-engineers: their claim text lives in coq/<pid>/NOTES.md
+# ("claims.py snippet" code block); enabled here once reviewed and run.
+ENABLED_FROM_NOTES = ["C03", "C10", "C17", "C20"]
+
+
+def _from_notes(pid):
+    import os, re
+    root = os.path.dirname(os.path.dirname(os.path.abspath(__file__)))
+    txt = open(os.path.join(root, "coq", pid, "NOTES.md")).read()
+    i = txt.index("claims.py snippet")
+    m = re.search(r"```python\n(.*?)```", txt[i:], re.S)
+    body = m.group(1).strip().rstrip(",")
+    d = eval("{" + body + "}")
+    return d[pid]
+
+
+for _pid in ENABLED_FROM_NOTES:
+    if _pid not in CLAIMS:
+        CLAIMS[_pid] = _from_notes(_pid)
+
 _PENDING = "check not built yet in this round (planned, see DESIGN.md section 4); not claimed until its proof and tie exist"
 NOT_APPLICABLE = {
     "C%02d" % i: _PENDING for i in range(1, 21) if "C%02d" % i not in CLAIMS
